@@ -1,6 +1,6 @@
 (* Suites.v -- dispatcher over the correspondence suites.  Everything here is
    executable; it is extracted to OCaml and also evaluated inside Coq. *)
-From CoapV Require Import Base Suite01 Suite05 Suite06 Suite07.
+From CoapV Require Import Base Suite01 Suite05 Suite06 Suite07 Suite13.
 
 Definition run (suite : N) (s : list N) : list N :=
   match suite with
@@ -10,6 +10,7 @@ Definition run (suite : N) (s : list N) : list N :=
   | 50 => run50 s
   | 60 => run60 s
   | 70 => run07 s
+  | 130 => run130 s
   | _ => [998]
   end.
 
@@ -23,6 +24,7 @@ Definition verdict (suite : N) (s out : list N) : bool :=
   | 50 => verdict50 s out
   | 60 => verdict60 s out
   | 70 => verdict07 s out
+  | 130 => verdict130 s out
   | _ => false
   end.
 
@@ -35,6 +37,7 @@ Definition classify (suite : N) (s out : list N) : N :=
   | 50 => classify50 s
   | 60 => classify60 s
   | 70 => classify07 s
+  | 130 => classify130 s
   | _ => 0
   end.
 
